@@ -52,3 +52,17 @@ Theorem C11_src_tail_truthful : forall divs parts nrows,
   truthful divs parts -> parts <> [] -> truthful (src_Tail_divisions divs) (tail_parts parts nrows).
 Proof. exact src_tail_truthful. Qed.
 Print Assumptions C11_src_tail_truthful.
+
+(* label slices: output partition i of df.loc[lo:hi] is computed from input partition start + i (defect D42: partitions[i] of a
+   slice was pushed through as if it were input partition i) *)
+From DX Require Import Loc LocProofs.
+Theorem C11_loc_partition_source : forall divs parts lo hi i x,
+  i <= ls_stop divs lo hi - ls_start divs lo ->
+  In x (nth i (loc_parts divs parts lo hi) []) -> In x (nth (ls_start divs lo + i) parts []).
+Proof. exact loc_partition_source. Qed.
+Print Assumptions C11_loc_partition_source.
+
+Theorem C11_loc_unshifted_refuted : exists divs parts lo hi,
+  truthful divs parts /\ slice_ok lo hi /\ loc_parts_unshifted divs parts lo hi <> loc_parts divs parts lo hi.
+Proof. exact loc_unshifted_refuted. Qed.
+Print Assumptions C11_loc_unshifted_refuted.
